@@ -299,7 +299,7 @@ func (e *Exec) nilCheck(st *State, fr *Frame, p *PtrV, pos token.Pos) {
 func ghostStruct(t types.Type) (string, bool) {
 	if n, ok := t.(*types.Named); ok && n.Obj().Pkg() != nil {
 		switch n.Obj().Pkg().Path() + "." + n.Obj().Name() {
-		case "bytes.Buffer", "sync.Mutex", "sync.RWMutex", "bytes.Reader", "bufio.Reader", "bufio.Writer", "time.Time", "sync.Once", "log.Logger", "math/rand.Rand", "time.Timer":
+		case "bytes.Buffer", "sync.Mutex", "sync.RWMutex", "bytes.Reader", "bufio.Reader", "bufio.Writer", "time.Time", "sync.Once", "log.Logger", "math/rand.Rand":
 			return n.Obj().Pkg().Path() + "." + n.Obj().Name(), true
 		}
 	}
